@@ -221,6 +221,12 @@ def graph_job(prop, tier, seed, job, policy, known, acc):
     walks, unreach = g.cover_walks(select=select, max_len=job.get('max_len', 60), seed=seed)
     if unreach:
         raise ToolError('%d edges unreachable in %s' % (unreach, spec))
+    # history diversity: single-guard refusals re-tried right after every moving edge (hidden residue)
+    rv = job.get('revisit', {})
+    rv_walks = g.revisit_walks(budget=rv.get('quick_budget', 4000) if tier == 'quick' else rv.get('thorough_budget', 200000),
+                               seed=seed) if rv is not False else []
+    n_cover = len(walks)
+    walks = walks + rv_walks
     ctl = job.get('control')
     wpath = os.path.join(outdir, 'walks.ndjson')
     G.write_walks(wpath, inst, g, walks, control=ctl, evkinds=job.get('evkinds'))
@@ -280,7 +286,7 @@ def graph_job(prop, tier, seed, job, policy, known, acc):
     distinct_nontrivial = len({G.canon([e['act'], e['_pre']]) for i, e in enumerate(edges) if select is None or i in select})
     acc['jobs'].append({'spec': spec, 'cfg': cfgname, 'design_run': design, 'module': module, 'states': stats['distinct'], 'transitions': len(edges),
                         'tlc_generated': stats['generated'], 'depth': stats['depth'], 'tlc_s': stats['tlc_s'],
-                        'edges_replayed': len(edges) if select is None else len(select), 'walks': len(walks),
+                        'edges_replayed': len(edges) if select is None else len(select), 'walks': len(walks), 'revisit_walks': len(rv_walks),
                         'steps_executed': nsteps, 'replay_s': round(rsecs, 1), 'exhaustive_replay': exhaustive,
                         'edges_by_action_outcome': byact, 'distinct_nontrivial': distinct_nontrivial})
     if not acc.get('sample'):
